@@ -168,7 +168,8 @@ def run_search(ck, binpath, nproc, n, extra, on_violation):
             v = json.loads(l)
             if "summary" in v:
                 s = v["summary"]
-                ck.add_measured(s["cases"], s["distinct_nontrivial"])
+                # the hand-written / corpus cases run in every process (fresh hash seeds) but are distinct only once
+                ck.add_measured(s["cases"], s["distinct_nontrivial"] - (s.get("fixed_nontrivial", 0) if i > 0 else 0))
                 for k, x in s.items():
                     if isinstance(x, int):
                         total[k] = total.get(k, 0) + x
